@@ -52,7 +52,7 @@ def known_findings(pid):
     if os.path.exists(p):
         for l in open(p):
             l = l.strip()
-            if l and not l.startswith('#'):
+            if l and not l.startswith('#') and not l.startswith('fixed:'):
                 r = json.loads(l)
                 if r.get('property') == pid:
                     out.append(r)
@@ -129,10 +129,13 @@ def run_check(pid, tier, mod=None, extra_stages=()):
         for r in pool.imap_unordered(_run_ob, [(mod.__name__, ob, sample_paths) for ob in obs], chunksize=1):
             results.append(r)
     results.sort(key=lambda r: r['name'])
-    return finish(pid, tier, mod, results, t0, seed)
+    extra, ground_bad = None, []
+    if hasattr(mod, 'ground_stage'):
+        extra, ground_bad = mod.ground_stage()
+    return finish(pid, tier, mod, results, t0, seed, extra, ground_bad)
 
 
-def finish(pid, tier, mod, results, t0, seed, extra=None):
+def finish(pid, tier, mod, results, t0, seed, extra=None, ground_bad=()):
     harness_errors = []
     for r in results:
         for u in r['unsupported'][:3]:
@@ -205,6 +208,13 @@ def finish(pid, tier, mod, results, t0, seed, extra=None):
         json.dump(dict(property=pid, **v), open(path, 'w'), indent=1, ensure_ascii=False)
         vio_lines.append('VIOLATION property=%s replay=%s' % (pid, path))
         print('  counterexample: %s %s %r' % (v['obligation'], v['signature'], v['draws']))
+    if ground_bad:
+        # violations found by exhaustive evaluation of shipped data are concrete by construction
+        os.makedirs(rdir, exist_ok=True)
+        path = os.path.join(rdir, 'ground.json')
+        json.dump(dict(property=pid, engine='ground', bad=_jsonable(list(ground_bad)[:50])), open(path, 'w'), indent=1, ensure_ascii=False)
+        vio_lines.append('VIOLATION property=%s replay=%s' % (pid, path))
+        print('  ground violations: %r' % (list(ground_bad)[:3],))
     paths = sum(r['paths'] for r in results)
     nontrivial = sum(1 for r in results if r['paths'] > 1)
     exhaustive = all(r['exhaustive'] for r in results)
